@@ -70,6 +70,7 @@ type RunConfig struct {
 	Deadline   time.Time
 	Verbose    bool
 	OnlyPrefix []int // replay a single path
+	ReadGlobal string // self-test: name of a []string global of the entry's package to read back
 }
 
 type RunResult struct {
@@ -93,6 +94,7 @@ type RunResult struct {
 	Wall         time.Duration
 	EngineErrors []string
 	ObsPaths     []*PathResult // completed paths with observations (for concolic cross-check)
+	GlobalStrings []string
 }
 
 func (P *Program) Explore(cfg RunConfig) *RunResult {
@@ -169,6 +171,9 @@ func (P *Program) Explore(cfg RunConfig) *RunResult {
 					}
 				}
 				res.Fails = append(res.Fails, pr.Fails...)
+				if pr.GlobalStrings != nil {
+					res.GlobalStrings = pr.GlobalStrings
+				}
 				if len(res.Samples) < 8 && pr.Status == "ok" {
 					res.Samples = append(res.Samples, pr)
 				}
@@ -263,6 +268,17 @@ func (w *Worker) runPath(cfg RunConfig, prefix []int) *PathResult {
 			}
 			if ex.res.Status == "ok" {
 				ex.finishObservations()
+			}
+			if cfg.ReadGlobal != "" && cfg.Entry.Pkg != nil {
+				if g, ok := cfg.Entry.Pkg.Members[cfg.ReadGlobal].(*ssa.Global); ok {
+					if obj := ex.globals[g]; obj != nil {
+						if s, ok := obj.v.(Slice); ok && s.base != nil {
+							for i := 0; i < s.len; i++ {
+								ex.res.GlobalStrings = append(ex.res.GlobalStrings, fmt.Sprint(s.at(i)))
+							}
+						}
+					}
+				}
 			}
 		}
 		ex.killThreads()
